@@ -7,8 +7,8 @@ import scipy.stats
 from .core import num, st
 
 
-def part_record(nnsp):
-    D = [[int(v) for v in row] for row in np.asarray(nnsp.D)]
+def part_record(nnsp, scale=1):
+    D = [[int(round(scale * float(v))) for v in row] for row in np.asarray(nnsp.D)]
     adj = np.asarray(nnsp.adjacency_matrix)
     nb = [[int(j) + 1 for j in np.nonzero(adj[i])[0]] for i in range(adj.shape[0])]
     return {"D": D, "v1": [int(x) for x in nnsp.v1], "v2": [int(x) for x in nnsp.v2], "nb": nb}
@@ -76,8 +76,14 @@ def run_nndvi(p, script, seed=0):
         pass
     ev = []
 
+    # "halves": the detector receives every coordinate divided by two (neighbour relations and the NNPS distance are scale-invariant and
+    # halves are exact); a batch on the even lattice is then all-whole and reaches the detector with an integer dtype from most containers,
+    # the others carry fractions - what a batch IS must not depend on the dtype of the reference it is compared with
+    scale = 2 if p.get("halves") else 1
+    to_det = (lambda rows: [[v / 2 for v in r] for r in rows]) if scale == 2 else (lambda rows: rows)
+
     def refrows():
-        return [[int(v) for v in r] for r in np.asarray(det.reference_batch)]
+        return [[int(round(scale * float(v))) for v in r] for r in np.asarray(det.reference_batch)]
 
     def counters():
         return {"total": int(det.total_batches), "since": int(det.batches_since_reset), "state": st(det.drift_state)}
@@ -85,19 +91,19 @@ def run_nndvi(p, script, seed=0):
     for t, s in enumerate(script):
         np.random.seed((seed * 7919 + t) % (2 ** 32))
         if s[0] == "set_reference":
-            det.set_reference(feeder.batch(s[1]))
+            det.set_reference(feeder.batch(to_det(s[1])))
             e = {"op": "set_reference", "data": s[1], "ref": refrows()}
         elif s[0] == "reset":
             det.reset()
             e = {"op": "reset", "ref": refrows()}
         else:
             ref_before = np.array(det.reference_batch, dtype=float)
-            X = np.array(s[1], dtype=float)
+            X = np.array(to_det(s[1]), dtype=float)
             nn = NNSpacePartitioner(p["k_nn"])
             nn.build(ref_before, X)
-            part = part_record(nn)
+            part = part_record(nn, scale)
             seen.pop("theta", None)
-            det.update(feeder.batch(s[1]))
+            det.update(feeder.batch(to_det(s[1])))
             lo, hi = theta_bracket(part, p["k_nn"], p["sampling_times"], p["alpha"], seed + t)
             e = {"op": "update", "data": s[1], "part": part, "ref": refrows(),
                  "th": {"theta": num(seen["theta"]) if "theta" in seen else "NA", "lo": num(lo), "hi": num(hi)}}
@@ -106,16 +112,18 @@ def run_nndvi(p, script, seed=0):
     return {"cfg": {"k": p["k_nn"]}, "ev": ev, "params": p, "script": [list(s) for s in script], "seed": seed}
 
 
-def lattice(rng, n, d, loc, spread):
+def lattice(rng, n, d, loc, spread, even=False):
+    if even:
+        return [[2 * ((loc[i] + rng.randint(0, spread)) // 2) for i in range(d)] for _ in range(n)]
     return [[loc[i] + rng.randint(0, spread) for i in range(d)] for _ in range(n)]
 
 
-def nndvi_history(rng, nb, equal_sizes=False):
+def nndvi_history(rng, nb, equal_sizes=False, some_even=False):
     d = rng.randint(1, 3)
     loc = [rng.randint(-3, 3) for _ in range(d)]
     spread = rng.randint(3, 7) if d > 1 else rng.randint(9, 15)
     n0 = rng.randint(10, 24)
-    script = [("set_reference", lattice(rng, n0, d, loc, spread))]
+    script = [("set_reference", lattice(rng, n0, d, loc, spread, some_even))]
     for b in range(nb):
         if rng.random() < 0.35:
             loc = [x + rng.choice([-1, 1]) * rng.randint(2, 9) for x in loc]
@@ -124,7 +132,7 @@ def nndvi_history(rng, nb, equal_sizes=False):
         if rng.random() < 0.05 and b > 0:
             script.append(("reset",))
         n = n0 if equal_sizes else rng.randint(6, 28)
-        script.append(("update", lattice(rng, n, d, loc, spread)))
+        script.append(("update", lattice(rng, n, d, loc, spread, some_even and rng.random() < 0.4)))
     return script
 
 
